@@ -404,9 +404,14 @@ func (o *opCtx) exec(kind, k int) string {
 		d.elem(&r1)
 		var r2 banderwagon.Element
 		r2.SetIdentity()
-		_, err = r2.MultiExp(pts, sc, banderwagon.MultiExpConfig{NbTasks: []int{1, 2, 7, 16, 64, 128}[rng.Intn(6)], ScalarsMont: true})
+		ret2, err := r2.MultiExp(pts, sc, banderwagon.MultiExpConfig{NbTasks: []int{1, 2, 7, 16, 64, 128}[rng.Intn(6)], ScalarsMont: true})
 		d.addf("err=%v", err != nil)
 		d.elem(&r2)
+		if err == nil && ret2 != &r2 && ret2 != nil {
+			// the returned pointer is the caller's accumulator
+			d.elem(ret2)
+			ret2.Double(ret2)
+		}
 		// the same sum with the scalars handed over in regular form
 		{
 			reg := make([]fr.Element, n)
